@@ -109,6 +109,8 @@ fn workloads(prop: &str, thorough: bool) -> Vec<Work> {
             w.push(chains(Plain, EphChain, 4, 5000 * k));
             w.push(chains(Plain, Random, 12, 3000 * k));
             exh(&mut w, exhaustive::Phase::Faults);
+            // large graphs (subprocesses): internal limits are internal errors under legal use
+            w.push(Work::Sweep { thorough: false });
         }
         "C07" => {
             w.push(chains(Plain, Random, 8, 12000 * k));
